@@ -85,6 +85,28 @@ func (ex *Exec) strIntrinsic(fn *ssa.Function, name string, args []Value) (Value
 			}
 		}
 		return ex.ts.Const(64, ex.concretize(res)), true
+	case "bytes.Equal":
+		return ex.slicesEqual(Str{ex.bytesOf(args[0])}, Str{ex.bytesOf(args[1])}), true
+	case "bytes.Compare", "strings.Compare":
+		a, b := ex.bytesOf(args[0]), ex.bytesOf(args[1])
+		// lexicographic comparison as one term: -1 / 0 / +1
+		n := len(a)
+		if len(b) < n {
+			n = len(b)
+		}
+		tail := ex.ts.Const(64, 0)
+		if len(a) < len(b) {
+			tail = ex.ts.Const(64, ^uint64(0))
+		} else if len(a) > len(b) {
+			tail = ex.ts.Const(64, 1)
+		}
+		res := tail
+		for i := n - 1; i >= 0; i-- {
+			lt := ex.ts.Bin(OpULt, a[i], b[i])
+			gt := ex.ts.Bin(OpULt, b[i], a[i])
+			res = ex.ts.Ite(lt, ex.ts.Const(64, ^uint64(0)), ex.ts.Ite(gt, ex.ts.Const(64, 1), res))
+		}
+		return res, true
 	case "bytes.IndexAny", "strings.IndexAny":
 		hay, set := ex.bytesOf(args[0]), ex.bytesOf(args[1])
 		for _, c := range set {
